@@ -173,9 +173,11 @@ func TestEngineStaking(t *testing.T) {
 	}
 	addrs[5] = c.deployRuntime("stk-fwd-call", codeForwarder)
 	addrs[6] = c.deployRuntime("stk-fwd-delegatecall", codeForwarderD)
+	addrs[7] = c.deployRuntime("stk-runner", codeRunner) // scripted: several precompile calls in ONE transaction
 	one := new(big.Int).Exp(big.NewInt(10), big.NewInt(18), nil)
 	mint(base, addrs[5].Bytes(), new(big.Int).Mul(one, big.NewInt(50)))
 	mint(base, addrs[6].Bytes(), new(big.Int).Mul(one, big.NewInt(50)))
+	mint(base, addrs[7].Bytes(), new(big.Int).Mul(one, big.NewInt(50)))
 	vals, err := sk.GetAllValidators(base)
 	require.NoError(t, err)
 	sort.Slice(vals, func(i, j int) bool { return vals[i].OperatorAddress < vals[j].OperatorAddress })
@@ -879,6 +881,52 @@ func TestEngineStaking(t *testing.T) {
 			}
 			runTwin(caller, call{kind: "wbymsg", md: md, fv: fv, amt: big.NewInt(0), valid: true, rec: rec, sigMode: mode,
 				input: packStk("withdrawRewardsByMessage", msg, rr, ss, vv)})
+		case k < 89: // TWO delegations by one contract in ONE transaction: the second call must log its own events only
+			v1, v2 := hx.Pick(r, valIDs), hx.Pick(r, valIDs)
+			a1 := new(big.Int).Mul(new(big.Int).Div(one, big.NewInt(1000)), big.NewInt(int64(1+r.Intn(300))))
+			a2 := new(big.Int).Mul(new(big.Int).Div(one, big.NewInt(1000)), big.NewInt(int64(1+r.Intn(300))))
+			if bk.GetBalance(base, addrs[7].Bytes(), bond).Amount.BigInt().Cmp(new(big.Int).Add(a1, a2)) < 0 {
+				mint(base, addrs[7].Bytes(), new(big.Int).Mul(one, big.NewInt(20)))
+			}
+			ctxA, writeA := base.CacheContext()
+			ctxB, _ := base.CacheContext()
+			ctxA = ctxA.WithEventManager(sdk.NewEventManager())
+			var evs [2]string
+			natOK := true
+			for j, pr := range []struct {
+				v int
+				a *big.Int
+			}{{v1, a1}, {v2, a2}} {
+				cb := ctxB.WithEventManager(sdk.NewEventManager())
+				if _, err := stakingkeeper.NewMsgServerImpl(sk).Delegate(cb, stakingtypes.NewMsgDelegate(accStr(7), valStr(pr.v), coin(pr.a))); err != nil {
+					natOK = false
+				}
+				evs[j] = "-"
+				if e := eventsOf(cb.EventManager()); len(e) > 0 {
+					evs[j] = strings.Join(e, ",")
+				}
+			}
+			script := append(record(0, stk, packStk("delegate", common.BytesToAddress(valAddr[v1]), a1)), record(0, stk, packStk("delegate", common.BytesToAddress(valAddr[v2]), a2))...)
+			script = append(script, 2)
+			res, err := evmCall(ctxA, addrs[1], addrs[7], script)
+			implRes, logs := "ok", "-"
+			if err != nil || res.VmError != "" {
+				implRes = "revert"
+			} else {
+				logs = logsOfResp(res)
+			}
+			twin := "eq"
+			if d := diffDumps(dumpStores(ctxA, keys, twinStores), dumpStores(ctxB, keys, twinStores)); len(d) > 0 {
+				twin = "diff"
+				p.Oracle("C11-differs-from-native", "two delegations in one transaction by contract 7: stores differ from two native messages, first: %s", strings.Join(firstK(d, 3), ";"))
+			}
+			if !natOK {
+				p.Count("stk2:native-failed")
+				continue
+			}
+			p.Emit(fmt.Sprintf("stk2 caller=7 ev1=%s ev2=%s", evs[0], evs[1]), fmt.Sprintf("res=%s logs=%s twin=%s", implRes, logs, twin))
+			p.Count("stk2:" + implRes)
+			writeA()
 		case k < 92: // native staking by somebody (interleaving)
 			who := hx.Pick(r, []int{1, 2, 3})
 			v := hx.Pick(r, valIDs)
